@@ -161,12 +161,20 @@ Definition explain_nc (u : N -> list value -> cres) (fuel : nat) (e : expr) (o :
     cache-free evaluation of [e] under [o] found PRESENT is reported by keys(), keys() succeeds
     whenever the evaluation does, no lookup hit a scalar parent, the reported keys are name-only
     paths, and a whole-dictionary read (AllOptions) is covered by the reported top-level keys. *)
-Definition names_only (k : key) : bool := forallb (fun s => match s with SName _ => true | SIdx _ => false end) k.
+Definition names_only (k : key) : bool :=
+  match k with [] => false | _ => forallb (fun s => match s with SName _ => true | SIdx _ => false end) k end.
 
 Definition reads_reported (ks : list key) (o : dict) (l : list event) : bool :=
   forallb (fun ev => match ev with
-                     | EvRead k true => key_mem k ks
-                     | EvRead k false => match lookup k (JObj o) with TypeErr => false | _ => true end
+                     | EvRead k p =>
+                         (* by the flag recorded at the lookup (relative to the dictionary the
+                            reading node saw) and by the caller's dictionary itself *)
+                         (if p then key_mem k ks else true) &&
+                         match lookup k (JObj o) with
+                         | Found _ => key_mem k ks
+                         | Absent => true
+                         | TypeErr => false
+                         end
                      | EvReadAll => forallb (fun kv => key_mem [fst kv] ks) o
                      | _ => true
                      end) l.
